@@ -1,6 +1,7 @@
 /- Native line-protocol driver: one request per line, one answer line per request. -/
 import Driver.Proto
 import Driver.Quad
+import Driver.Alg
 import Driver.Solve
 import Driver.Color
 import Driver.IOMap
@@ -13,11 +14,12 @@ def step (line : String) : String :=
   let toks := (line.splitOn " ").filter (· ≠ "")
   match toks with
   | "tri" :: _ | "gauss" :: _ | "duffy" :: _ | "remapv" :: _ | "remape" :: _ | "nqp" :: _ => Driver.Quad.handle toks
-  | "topo" :: _ | "geom" :: _ | "refineverts" :: _ | "baryverts" :: _ | "union" :: _ | "segments" :: _ => Driver.Topo.handle toks
+  | "topo" :: _ | "geom" :: _ | "refineverts" :: _ | "baryverts" :: _ | "union" :: _ | "segments" :: _ | "childdoms" :: _ => Driver.Topo.handle toks
   | "ioexport" :: _ | "ioimport" :: _ | "iotransform" :: _ => Driver.IOMap.handle toks
   | "color" :: _ | "g2l" :: _ => Driver.Color.handle toks
   | "hist" :: _ => Driver.Hist.handle toks
   | "solve" :: _ | "splitby" :: _ => Driver.Solve.handle toks
+  | "alg" :: _ => Driver.Alg.handle toks
   | _ => "err bad-op"
 
 partial def loop (h : IO.FS.Stream) (out : IO.FS.Stream) : IO Unit := do
